@@ -710,6 +710,22 @@ let do_coq (idx : string) (rest : string) : string =
       (coq_list coq_op os) summary
   | _ -> failwith "bad COQ"
 
+(* the same for recovery: open_dir on a directory image *)
+let do_coqimg (idx : string) (rest : string) : string =
+  match split_on '|' rest with
+  | cfg :: files :: _ ->
+    let c = p_cfg (toks cfg) in
+    let d = List.sort (fun a b -> compare (int64_of_n_cmp a.f_id) (int64_of_n_cmp b.f_id)) (List.map p_file (toks files)) in
+    let dsum dd = coq_list (fun f -> Printf.sprintf "(%s, %s, %s)" (coq_n f.f_id) (coq_n (n_of_int (List.length f.f_data))) (coq_n (crc32 f.f_data))) dd in
+    let summary = (match open_dir c d with
+        | OpenOk y ->
+          let items = snd (do_read y.y_core y.y_disk N0 (n_of_string "100000")) in
+          Printf.sprintf "(inl (%s, %s, %s))" (coq_rstate y.y_core.k_sm.m_rs) (coq_list coq_ritem items) (dsum y.y_disk)
+        | OpenErr (_, d') -> Printf.sprintf "(inr %s)" (dsum d')) in
+    Printf.sprintf "Example x%s : osummary (open_dir %s %s) = %s. Proof. vm_compute. reflexivity. Qed." idx (coq_cfg c)
+      (coq_list (fun f -> Printf.sprintf "(mkFile %s %s %s)" (coq_n f.f_id) (coq_bytes f.f_data) (coq_n f.f_synced)) d) summary
+  | _ -> failwith "bad COQIMG"
+
 let do_enc (rest : string) : string =
   let r = p_record (toks rest) in
   let b = enc_record r in
@@ -752,6 +768,10 @@ let () =
              | "DEC" -> do_dec rest
              | "TRACE" -> do_trace rest
              | "LOCK" -> do_lock rest
+             | "COQIMG" -> (match toks rest with
+                 | idx :: _ -> let r = String.trim rest in
+                   let r' = String.sub r (String.length idx) (String.length r - String.length idx) in do_coqimg idx r'
+                 | [] -> failwith "bad COQIMG")
              | "COQ" -> (match toks rest with
                  | idx :: _ -> let r = String.trim rest in
                    let r' = String.sub r (String.length idx) (String.length r - String.length idx) in do_coq idx r'
